@@ -1044,6 +1044,10 @@ val field_value : bytes -> bytes
 
 val sfield_pairs : sfield list -> (bytes * bytes) list
 
+val cl_values_rfc : (bytes * bytes) list -> n option list
+
+val cl_consistent_rfc : (bytes * bytes) list -> bool
+
 val in_rng : byte -> n -> n -> bool
 
 val cont : byte -> bool
